@@ -271,11 +271,11 @@ impl ConnectingPerAddr {
         self.slots.iter().flatten().any(|c| c.conn_id == conn_id)
     }
 
-    // TODO: use connection ID instead of sequence number. Or even both.
-    fn pop(&mut self, s: SeqNr) -> Option<Connecting> {
+    // A SYN-ACK acknowledges the SYN's sequence number and carries the SYN's connection id.
+    fn pop(&mut self, s: SeqNr, conn_id: SeqNr) -> Option<Connecting> {
         for slot in self.slots.iter_mut() {
             if let Some(c) = slot {
-                if c.seq_nr == s {
+                if c.seq_nr == s && c.conn_id == conn_id {
                     self.len -= 1;
                     return slot.take();
                 }
@@ -536,7 +536,10 @@ impl<T: Transport, E: UtpEnvironment> Dispatcher<T, E> {
             }
         };
 
-        let conn = if let Some(conn) = occ.get_mut().pop(msg.header.ack_nr) {
+        let conn = if let Some(conn) = occ
+            .get_mut()
+            .pop(msg.header.ack_nr, msg.header.connection_id)
+        {
             if occ.get_mut().is_empty() {
                 occ.remove();
             }
@@ -544,7 +547,7 @@ impl<T: Transport, E: UtpEnvironment> Dispatcher<T, E> {
         } else {
             debug!(
                 ?msg,
-                "dropping packet. we are connecting to this addr, but ack_nr doens't match"
+                "dropping packet. we are connecting to this addr, but ack_nr or connection id don't match"
             );
             return Ok(());
         };
